@@ -19,6 +19,8 @@ from pyvc.lib.numpy_ import NDArray, unravel
 from pyvc.lib.seq import SymSeq
 from pyvc.lib.stdlib import OpaqueValue, Recorder
 
+from props._contracts import polygon_contract_scenarios, scn_polygon_contract  # noqa: F401
+
 PROPERTY = 'C19'
 CONFIGS = [
     ('CFGrid1D', {}, ('lat', 'lon')), ('CFGrid1D', {}, ('lon', 'lat')), ('CFGrid2D', {}, ('j', 'i')), ('ShocStandard', {}, ('i_centre', 'j_centre')),
@@ -35,7 +37,18 @@ def scenarios(tier):
         out.append({'name': f'make_quiver[{cfg[0]} {cfg[2]}]', 'fn': 'scn_quiver', 'kwargs': {'ci': ci}})
         out.append({'name': f'animate_on_figure[{cfg[0]} {cfg[2]}]', 'fn': 'scn_animate', 'kwargs': {'ci': ci}})
     out.append({'name': 'leftover dimensions are refused', 'fn': 'scn_refuse', 'kwargs': {}})
+    # the callee contract the quiver scenarios rely on (face_centres[n] = the centre of cell n) is re-verified here against the real bodies,
+    # so that a change inside face_centres fails *this* check too
+    from props import C02
+    for ci, cfg in enumerate(C02.CENTRE_CONFIGS):
+        out.append({'name': f'contract face_centres[{cfg[0]} {cfg[1]}]', 'fn': 'scn_centres_contract', 'kwargs': {'ci': ci}})
+    out += polygon_contract_scenarios()
     return out
+
+
+def scn_centres_contract(c, ci):
+    from props import C02
+    return C02.scn_centres(c, ci)
 
 
 def _setup(c, ci, extra_dims=()):
